@@ -72,6 +72,17 @@ Theorem non_extended_resize_never_raises :
 Proof. exact nonextended_never_rejected. Qed.
 Print Assumptions non_extended_resize_never_raises.
 
+(* T1: an axis of unchanged size is copied as it is, whatever offset entry is given for it
+   (e.g. a scalar offset broadcast to all axes while only some are resized): every mode,
+   both directions, any offset.  ([intersection_slices] is regenerated; indexing an
+   unchanged axis with slice(offset, offset + n) instead of the full slice breaks this.) *)
+Theorem unchanged_size_ignores_offset :
+  forall (m : pmode) (d : direction) (c : R) (cast : bool) (x : list R) (off : Z),
+  (d = Adjoint -> m = PConstant -> c = 0) ->
+  resize1 m d c cast x (length x) off = Ok x.
+Proof. exact resize1_same. Qed.
+Print Assumptions unchanged_size_ignores_offset.
+
 (* T1: forward and adjoint directions are transposes of each other.  For every
    mode, every input length, every output length (growing, shrinking, equal),
    every admissible offset and all contents x, y: both directions succeed and
